@@ -536,36 +536,30 @@ impl Branches<'_> {
         remaining_branches: &[&str],
         base_location: &BranchLocation,
     ) -> Result<Option<Path>> {
-        let mut longest_used_length = 0;
+        // Branch names are paths: compare them segment by segment (`ab` and `a/b` share nothing).
+        let branch_segments: Vec<&str> = branch.split('/').collect();
+        let mut longest_used_segments = 0;
         for &candidate in remaining_branches {
-            let common_len = branch
-                .chars()
-                .zip(candidate.chars())
-                .take_while(|(a, b)| a == b)
+            let common_segments = branch_segments
+                .iter()
+                .zip(candidate.split('/'))
+                .take_while(|(a, b)| *a == b)
                 .count();
 
-            if common_len > longest_used_length {
-                longest_used_length = common_len;
+            if common_segments > longest_used_segments {
+                longest_used_segments = common_segments;
             }
         }
         // Means this branch path is used as a prefix of other branches
-        if longest_used_length == branch.len() {
+        if longest_used_segments == branch_segments.len() {
             return Ok(None);
         }
 
-        let mut used_relative_path = &branch[..longest_used_length];
-        if let Some(last_slash_index) = used_relative_path.rfind('/') {
-            used_relative_path = &used_relative_path[..last_slash_index];
-        }
-        let unused_dir = &branch[used_relative_path.len()..].trim_start_matches('/');
-        if let Some(sub_dir) = unused_dir.split('/').next() {
-            let relative_dir = format!("{}/{}", used_relative_path, sub_dir);
-            // Use base_location to generate the cleanup path
-            let absolute_dir = base_location.find_branch(Some(relative_dir))?;
-            Ok(Some(absolute_dir.path))
-        } else {
-            Ok(None)
-        }
+        // The first directory on the way to this branch that no remaining branch uses
+        let relative_dir = branch_segments[..=longest_used_segments].join("/");
+        // Use base_location to generate the cleanup path
+        let absolute_dir = base_location.find_branch(Some(relative_dir))?;
+        Ok(Some(absolute_dir.path))
     }
 }
 
